@@ -26,6 +26,8 @@ from vcheck.core import Task, Violation
 ID = 'C01'
 LEVEL = 'exploration'
 BUDGET = {'quick': 75, 'thorough': 900}
+# deterministic sub-checks repeated in a `python -O` child (core.optimized_child)
+OPT_SUBS = ('cuts', 'engine/direct')
 RULE = ('engine: every chunking (2^(n-1) compositions, plus empty chunks) of '
         'position-coded streams up to length n for every region offset/'
         'length/min_length and end-region size, also through a FileInspector '
